@@ -106,6 +106,10 @@ def context_cases(rnd):
             cases.append(("string-literal", cname, "js-branch-" + mode, "{{ c ? '%s' : 'n' }}" % t, v, {"c": True}))
             cases.append(("attr-value", cname, "js-item-" + mode, "<v a=\"{{ ['%s', k][0] }}\"/>" % tq, v, {"k": "K"}))
             cases.append(("attr-value", cname, "js-member-" + mode, "<v a=\"{{ {p: '%s'}.p }}\"/>" % tq, v, None))
+    # a backslash before a line terminator continues the literal on the next line and denotes nothing (JavaScript's LineContinuation)
+    for tname, term in (("LF", "\n"), ("CRLF", "\r\n"), ("CR", "\r"), ("LS", "\u2028"), ("PS", "\u2029")):
+        cases.append(("string-literal", "CONT", "js-continuation-" + tname, "{{ 'a\\%sb' }}" % term, "ab", None))
+        cases.append(("attr-value", "CONT", "js-continuation-" + tname, "<v a=\"{{ k + 'a\\%sb' }}\"/>" % term, "Kab", {"k": "K"}))
     # names: identifier-like strings (the parser's own grammar for names)
     for n in ("ab", "a-b", "a.b", "a_b", "A9", "a--b", "a.b-c"):
         cases.append(("tag-name", "NAME", n, "<%s/>" % n, n if not any(c.isupper() for c in n) else n, None))
